@@ -1063,15 +1063,25 @@ fiSIntLength(FiSInt i)
 FiSInt
 fiSIntTimesMod(FiSInt a,FiSInt  b,FiSInt m)
 {
-	/*!! Not yet implemented */
-	return 0;
+	/* (a * b) mod m for 0 <= a, b < m, by doubling, so that no
+	 * intermediate value exceeds 2 * m. */
+	unsigned long	ua = (unsigned long) a, ub = (unsigned long) b;
+	unsigned long	um = (unsigned long) m, r = 0;
+
+	while (ub != 0) {
+		if (ub & 1)
+			r = (r >= um - ua) ? r - (um - ua) : r + ua;
+		ua = (ua >= um - ua) ? ua - (um - ua) : ua + ua;
+		ub >>= 1;
+	}
+	return (FiSInt) r;
 }
 
 FiSInt
 fiSIntTimesModInv(FiSInt a,FiSInt  b,FiSInt  m,FiDFlo  mi)
 {
-	/*!! Not yet implemented */
-	return 0;
+	/* The precomputed inverse is only an accelerator. */
+	return fiSIntTimesMod(a, b, m);
 }
 
 /*****************************************************************************
